@@ -256,6 +256,56 @@ def r1_10_context_slice(ctx, prog, rule="R1.10"):
     ctx.floor(rule, "context slice shapes", len(seen), 2)
 
 
+def r1_13_normalised_value_stored(ctx, prog, rule="R1.13"):
+    ctx.rule(rule, "USERNAME stores the *result* of the OpaqueString profile: on every Ok path of UserName::new and of its decoder "
+                   "the stored string is computed from the value opaque_string_enforce returned - the raw input reaches it only "
+                   "through that call (a constructor that validates and then stores the raw text builds values that are not "
+                   "fixpoints of the decoder's normalisation: the round trip changes them)")
+    UN = "stun_rs::attributes::stun::user_name::UserName"
+    n = 0
+    for fn, what in ((UN + "::new", "constructor"), ("<%s as stun_rs::attributes::DecodeAttributeValue>::decode" % UN, "decoder")):
+        b = prog.body(fn, required=False)
+        if b is None:
+            ctx.anchor_missing(rule, fn)
+            continue
+        paths, info = C.explore_fn(prog, b.path, "x", [r"\{closure"])
+        ctx.fn(b)
+        for pa in paths:
+            r = C.expr_of(pa, pa.ret)
+            if not (isinstance(r, tuple) and r and r[0] == "Result::Ok"):
+                continue
+            # the UserName(..) node of the result
+            found = []
+
+            def find(x):
+                if isinstance(x, tuple):
+                    if x and x[0] == "UserName":
+                        found.append(x)
+                        return
+                    for y in x:
+                        find(y)
+            find(r)
+            raw, seen_enf = [], [False]
+
+            def walk(x, under):
+                if isinstance(x, tuple):
+                    here = len(x) >= 1 and isinstance(x[0], str) and x[0].endswith("opaque_string_enforce")
+                    if here:
+                        seen_enf[0] = True
+                    for y in x:
+                        walk(y, under or here)
+                elif isinstance(x, str) and x.startswith("top:") and not under:
+                    raw.append(x)
+            for f_ in found:
+                walk(f_, False)
+            ok = len(found) == 1 and not raw and seen_enf[0]
+            n += 1
+            ctx.ob(rule, "normalised:%s" % what, ok,
+                   "the stored name is %s" % ("the profile's result" if ok else "built from the raw input %s (or no UserName value found: %d)" % (sorted(set(raw)), len(found))),
+                   b.where(), replay=None if ok else pa.describe())
+    ctx.floor(rule, "Ok paths of the USERNAME constructor and decoder", n, 2)
+
+
 def check(ctx, env):
     ctx.explanation = (
         "Static, structural necessary conditions of the round trip: (R1.1) the variants of StunAttribute and the set of types "
@@ -296,4 +346,5 @@ def check(ctx, env):
     # the header reader accepts exactly what the header writer can produce (any 14-bit type word): a stricter bit test
     # rejects encodable methods (0x800..0xFFF)
     c02.r2_10_header_validation(ctx, env.prog("full"), rule="R1.12")
+    r1_13_normalised_value_stored(ctx, env.prog("full"))
     ctx.extra["configs_checked"] = configs if len(configs) < 6 else "%d feature configurations" % len(configs)
